@@ -697,6 +697,14 @@ setup(int ndds, int cache, int start)
                 apply(&op);
             }
             break;
+        case 4: /* the first block is full and a second one, holding only an alias (no data behind it), ends the file */
+            for (int i = 0; i < ndds - 1; i++) {
+                op.code = OP_PUT, op.a[0] = T2, op.a[1] = 10 + i, op.a[2] = 2;
+                apply(&op);
+            }
+            op.code = OP_DUP, op.a[0] = T1, op.a[1] = 50, op.a[2] = T2, op.a[3] = 10;
+            apply(&op);
+            break;
     }
     M.nops = 0;
     observe("start state");
@@ -854,7 +862,7 @@ C12_main(const char *tier, const char *replay)
         ncfg = 0;
         for (int i = 0; i < nnd; i++)
             for (int cache = 1; cache >= 0; cache--)
-                for (int start = 0; start < 4; start++) {
+                for (int start = 0; start < 5; start++) {
                     cfg_t *c = &cfgs[ncfg++];
                     c->ndds  = nd[i];
                     c->cache = cache;
